@@ -8,6 +8,17 @@ namespace Wbxml.Lemmas.EncW
 open Wbxml Wbxml.Model
 open Wbxml.Model.Codec (mbEncode)
 
+/-! ### `Except` plumbing -/
+
+theorem ok_inj {α : Type} {a b : α} (h : (pure a : Except Err α) = .ok b) : a = b := by
+  injection h
+
+theorem bind_ok' {α β : Type} {x : Except Err α} {f : α → Except Err β} {b : β} (h : (x >>= f) = .ok b) :
+    ∃ a, x = .ok a ∧ f a = .ok b := by
+  cases x with
+  | error e => cases h
+  | ok a => exact ⟨a, rfl, h⟩
+
 /-! ### `emit` -/
 
 @[simp] theorem emit_out (st : WSt) (bs : Bytes) : (st.emit bs).out = st.out ++ bs := rfl
